@@ -236,7 +236,9 @@ def c03(run):
          ("dropfault", ["map:kv16:collide:20:700:fault:fault=30,fclass=drop", "table:te24:zero:14:400:table:fault=25,fclass=drop",
                         "set:k8t:collide:16:400:set:fault=25,fclass=drop"]),
          ("clonefault", ["map:kv16:collide:16:500:two:fault=40,fclass=clone", "set:k8t:fewpos:14:400:setalg:fault=40,fclass=clone",
-                         "table:te24:zero:12:300:table:fault=40,fclass=clone"])],
+                         "table:te24:zero:12:300:table:fault=40,fclass=clone"]),
+         # owning parallel iterators (short-circuiting and panicking consumers): every element dropped or handed out exactly once
+         ("pardrops", ["map:kv16:collide:40:500:par", "set:k8t:collide:30:300:parset", "table:te24:zero:40:300:partable"])],
         [("drops2", ["map:kv200:collide:30:3000:wide", "map:kva64:max:20:2000:iter", "map:kv16:onegroup:14:3000:two"]),
          ("dropsg", ["map:kv16:collide:24:3000:wide", "set:k8t:zero:14:2000:setalg"], G)],
         "every element id and allocator block is followed through every call: drops observed in each call = drops of the abstract machine; block ledger = layouts of the live tables", corpus=True)
@@ -293,6 +295,7 @@ def c10(run):
          ("selset", ["set:k8t:collide:30:800:set", "table:te24:collide:24:600:table"]),
          ("selwrap", ["map:kv16:wrap:40:1200:iter", "table:te24:wrap:30:600:table", "set:k8t:wrap:30:600:set", "map:kv16:spread:40:600:iter"]),
          ("selzst", ["table:t0:zero:1:1200:tablezst"], {"module": "HbZstTrace.tla", "cfg": "HbZstTrace.cfg"}),
+         ("selpar", ["map:kv16:collide:40:400:par", "table:te24:zero:40:300:partable"]),      # par_drain incl. panicking consumers
          ("selfault", ["map:kv16:collide:30:700:iter:fault=30,fclass=drop", "table:te24:zero:14:400:table:fault=25,fclass=drop",
                        "set:k8t:collide:20:400:set:fault=30,fclass=drop"])],
         [("sel2", ["map:kv16:onegroup:12:3000:iter", "map:kv200:fewpos:60:3000:iter"]),
